@@ -398,7 +398,7 @@ Qed.
 (* DFXP write then read: the language-level layout, every caption's layout and every word's layout are the expected
    effective layouts (node > caption > language, two-decimal values, defaults start / after) *)
 Theorem dfxp_layout_roundtrip : forall langs, Forall opt_nonneg (set_layouts (map to_dlang langs)) ->
-  exists obs, dfxp_roundtrip (map to_dlang langs) = Ok obs /\ Forall2 lang_rel obs langs.
+  exists obs, dfxp_roundtrip None (map to_dlang langs) = Ok obs /\ Forall2 lang_rel obs langs.
 Proof.
   intros langs NN. unfold dfxp_roundtrip, write_doc, read_doc. cbn [x_regions x_divs].
   set (ls := set_layouts (map to_dlang langs)) in *. set (m := region_map ls).
@@ -409,7 +409,7 @@ Proof.
   destruct (resolve_in ls NN _ (choice_in ls (gl_layout gl) None Hl (or_introl eq_refl))) as (rd_lay & Erd & Qrd).
   fold m regs in Erd. rewrite Erd. cbn [bind]. rewrite exp_of_choice in Qrd.
   set (rd := region_lookup m (dfxp_choice None (gl_layout gl) None None)).
-  assert (Caps : exists cs, res_map (read_p regs (Some rd)) (map (write_cap m (gl_layout gl)) (map to_dcap (gl_caps gl))) = Ok cs
+  assert (Caps : exists cs, res_map (read_p regs (Some rd)) (map (write_cap m None (gl_layout gl)) (map to_dcap (gl_caps gl))) = Ok cs
                             /\ Forall2 (cap_rel (gl_layout gl)) cs (gl_caps gl)).
   { rewrite map_map. apply res_map_map_F2. intros gc Hgc.
     pose proof (in_set_cap langs gl gc Hgl Hgc) as Hc. fold ls in Hc.
